@@ -122,8 +122,10 @@ func checkMapInvWrites(v *Verifier) []structResult {
 					}
 					// functions without contract are verified by the safety
 					// sweep (property C04), which emits the same obligation
-					if c4, ok := propConfigs["C04"]; ok && matchAny(funcKey(fn), c4.Sweep) && !matchAny(funcKey(fn), c4.SweepSkip) {
-						under = true
+					for _, sp := range []string{"C04", "C17"} {
+						if c4, ok := propConfigs[sp]; ok && matchAny(funcKey(fn), c4.Sweep) && !matchAny(funcKey(fn), c4.SweepSkip) {
+							under = true
+						}
 					}
 					if !under {
 						bad = append(bad, fmt.Sprintf("%s updates a %s outside any function under contract (%s)", funcDisplayName(fn), mi.TypeText, v.fset.Position(ins.Pos())))
